@@ -52,10 +52,17 @@ def run_nm(rng, obs):
         x0[rng.randrange(dim)] = rng.choice([1e-9, -5e-9, 3e-12, 1e-8, -2e-7])
     xtol = rng.choice([1e-4, 1e-2, 1e-6]); ftol = rng.choice([1e-4, 1e-2, 1e-8])
     maxiter = rng.choice([None, None, 3, 17, 60]); maxfun = rng.choice([None, None, 10, 45, 150])
+    if rng.random() < 0.12:
+        # tolerances that are met with equality only: 0 (all vertices / values equal) and, on integer-valued terraces, a whole step
+        ftol = rng.choice([0.0, 0.0, 1.0, 4.0]); xtol = rng.choice([xtol, 0.0, 0.5])
+        if ftol and rng.random() < 0.8: spec = ['step', [round(rng.uniform(-1, 1), 2) for _ in range(dim)]]; raw = K.make_cost(spec)
+        if maxiter is None: maxiter = rng.choice([120, 300])
+    # (fmin documents that a falsy xtol selects another stop rule, VTRChangeOverGeneration(ftol): xtol = 0 is run through the class API with the rule given explicitly)
+    class_api = xtol == 0.0
     adaptive = rng.random() < 0.3
     obs.desc = {'solver': 'nm', 'cost': spec, 'x0': x0, 'xtol': xtol, 'ftol': ftol, 'maxiter': maxiter, 'maxfun': maxfun, 'adaptive': adaptive}
     probe = K.CostProbe(raw)
-    if not adaptive:
+    if not adaptive and not class_api:
         out = fmin(probe, list(x0), xtol=xtol, ftol=ftol, maxiter=maxiter, maxfun=maxfun, full_output=1, disp=0, retall=1)
         xm, fm, itm, fcm, wfm, vecs = out
     else:       # the scipy-style wrapper has no 'adaptive' switch: use the class API the wrapper is built on
@@ -65,7 +72,7 @@ def run_nm(rng, obs):
         sv = NelderMeadSimplexSolver(dim)
         sv.SetInitialPoints(list(x0)); sv.SetEvaluationLimits(maxiter, maxfun)
         mon = Monitor(); sv.SetGenerationMonitor(mon)
-        sv.Solve(probe, termination=CRT(xtol, ftol), adaptive=True, disp=0)
+        sv.Solve(probe, termination=CRT(xtol, ftol), disp=0, **({'adaptive': True} if adaptive else {}))
         xm, fm, itm, fcm, vecs = sv.bestSolution, sv.bestEnergy, sv.generations, sv.evaluations, mon.x
         wfm = 1 if fcm >= sv._maxfun else (2 if itm >= sv._maxiter else 0)
     rawf = lambda x: raw([float(v) for v in x])      # same argument conversion as the probe (python floats: builtin sum is compensated)
